@@ -65,7 +65,7 @@ out = {"pydantic_available": B.PYDANTIC_AVAILABLE, "reports": []}
 for c in cases:
     rep = {}
     try:
-        if c["kind"] in ("model", "invariant"):
+        if c["kind"] in ("model", "invariant", "spec_example"):
             cls = load(c["cls"])
             obj = cls.model_validate(c["wire"])
             rep["ok"] = True
